@@ -20,6 +20,12 @@ Scenario discipline (so that the property applies; see specs/TcpStream.tla):
           finishes its own writes and, once readConnectionLost has been called, calls loseConnection();
   abort : the closer issues its writes and calls abortConnection() (abort_delay_ms later).
 A half-closeable protocol answers readConnectionLost with loseConnection() once its own writes are issued.
+scenario["reent"] = [policy of side 1, policy of side 2] makes half-closeable protocols act RE-ENTRANTLY, from inside
+their half-close callbacks (policy = {"rdl": "lose" | "half" | "write+lose" | "write+half", "wrl": "lose" | "later", "extra": n}):
+  in readConnectionLost : optionally write `extra` more bytes (only when the peer merely half-closed, i.e. still reads),
+                          then loseConnection() or loseWriteConnection();
+  in writeConnectionLost: loseConnection() right there ("lose") or a few ms later ("later") -- only if this side has
+                          nothing left to wait for (end of the peer's stream seen, or all the peer will ever write received).
 
 Events (observable only): w/ws (bytes handed to transport.write/writeSequence), r (dataReceived: offset decoded
 from content, length), req (close call), rdl / wrl (half-close callbacks), lost (connectionLost + reason class),
@@ -100,7 +106,8 @@ def main():
     def tot(ops):
         return sum(op[1] if op[0] == "w" else sum(op[1]) if op[0] == "ws" else 0 for op in ops)
     for side in (1, 2):      # streams are built before any connection exists (not on a scenario's clock)
-        build_stream(side, max([tot(sc["ops"][side - 1]) for sc in cfg["scenarios"]] + [0]))
+        build_stream(side, max([tot(sc["ops"][side - 1]) + (sc.get("reent") or [{}, {}])[side - 1].get("extra", 0)
+                                for sc in cfg["scenarios"]] + [0]))
 
     def run_scenario(idx):
         if idx >= len(cfg["scenarios"]):
@@ -117,6 +124,13 @@ def main():
         state = {"done": False, "port": None, "timer": None, "idle": None, "progress": 0, "seen": -1}
         sides = {}
         total = {s: sum(op[1] if op[0] == "w" else sum(op[1]) if op[0] == "ws" else 0 for op in sc["ops"][s - 1]) for s in (1, 2)}
+        reent = sc.get("reent") or [{}, {}]
+
+        def writes_extra(s):     # side s writes `extra` bytes from inside readConnectionLost
+            pol = reent[s - 1]
+            return pol.get("extra", 0) if (sc["kind"] == "half" and s != sc["closer"] and sc["hc"][s - 1]
+                                           and "write" in pol.get("rdl", "lose")) else 0
+        final_total = {s: total[s] + writes_extra(s) for s in (1, 2)}     # all that side s will ever write
 
         class Side(protocol.Protocol):
             side = 0
@@ -132,6 +146,7 @@ def main():
                 self.closekind = None
                 self.pauses = sorted(sc.get("rdpause", [[], []])[self.side - 1])
                 self.paused = False
+                self.pol = reent[self.side - 1]
 
             def connectionMade(self):
                 sides[self.side] = self
@@ -173,7 +188,7 @@ def main():
             def maybe_close(self):
                 if self.closed or self.lostn or not self.opsdone:
                     return
-                peer_total = total[3 - self.side]
+                peer_total = final_total[3 - self.side]
                 if self.side == sc["closer"]:
                     if sc["kind"] == "lose":
                         if self.got >= peer_total:
@@ -193,7 +208,21 @@ def main():
                 # once it has nothing more to write
                 if self.lostn or not self.opsdone or self.closekind in ("lose", "abort"):
                     return
-                if self.closekind == "half" or self.side != sc["closer"]:
+                if self.closekind == "half":
+                    self.close("lose")
+                elif self.side != sc["closer"]:
+                    n = writes_extra(self.side)
+                    if n:
+                        ev.append({"e": "w", "s": self.side, "n": n})
+                        self.transport.write(stream(self.side)[self.pos:self.pos + n])
+                        self.pos += n
+                    self.close("half" if self.pol.get("rdl", "lose").endswith("half") else "lose")
+
+            def nothing_to_wait_for(self):
+                return self.rdlost or self.got >= final_total[3 - self.side]
+
+            def late_lose(self):
+                if not self.lostn and self.closekind == "half" and self.nothing_to_wait_for():
                     self.close("lose")
 
             def do_abort(self):
@@ -248,6 +277,11 @@ def main():
 
             def writeConnectionLost(self):
                 ev.append({"e": "wrl", "s": self.side})
+                how = self.pol.get("wrl")
+                if how == "lose" and self.closekind == "half" and self.nothing_to_wait_for():
+                    self.close("lose")                      # re-entrant: we are inside the transport's doWrite
+                elif how == "later":
+                    reactor.callLater(0.003, self.late_lose)
 
         @implementer(interfaces.IHalfCloseableProtocol)
         class HC1(HCMixin, Side):
